@@ -1,16 +1,24 @@
 // C05 harness, part 2: optional / either / variant operations over tracked elements.
+// Compiled once per unit (-DC05_UNIT_OPTIONALS, _OPTIONALS_MULTI, _EITHERS, _EITHERS_MULTI, _VARIANTS).
 #include "c05_common.hpp"
 
 #include <fcppt/either/apply.hpp>
 #include <fcppt/either/bind.hpp>
+#include <fcppt/either/error.hpp>
+#include <fcppt/either/error_from_optional.hpp>
 #include <fcppt/either/failure_opt.hpp>
 #include <fcppt/either/first_success.hpp>
 #include <fcppt/either/from_optional.hpp>
 #include <fcppt/either/join.hpp>
+#include <fcppt/either/loop.hpp>
+#include <fcppt/either/make_failure.hpp>
+#include <fcppt/either/make_success.hpp>
 #include <fcppt/either/map.hpp>
 #include <fcppt/either/map_failure.hpp>
 #include <fcppt/either/match.hpp>
+#include <fcppt/either/no_error.hpp>
 #include <fcppt/either/sequence.hpp>
+#include <fcppt/either/sequence_error.hpp>
 #include <fcppt/either/success_opt.hpp>
 #include <fcppt/either/to_exception.hpp>
 #include <fcppt/function_impl.hpp>
@@ -27,9 +35,14 @@
 #include <fcppt/optional/map.hpp>
 #include <fcppt/optional/maybe.hpp>
 #include <fcppt/optional/maybe_multi.hpp>
+#include <fcppt/optional/maybe_void.hpp>
+#include <fcppt/optional/maybe_void_multi.hpp>
 #include <fcppt/optional/sequence.hpp>
 #include <fcppt/optional/to_container.hpp>
 #include <fcppt/optional/to_exception.hpp>
+#include <fcppt/algorithm/loop_break_tuple.hpp>
+#include <fcppt/algorithm/map_tuple.hpp>
+#include <fcppt/tuple/object_impl.hpp>
 #include <fcppt/variant/apply.hpp>
 #include <fcppt/variant/match.hpp>
 #include <fcppt/variant/to_optional.hpp>
@@ -53,6 +66,7 @@ using vec = std::vector<T>;
 opt mk_opt(bool some) { return some ? opt{T(next_tok())} : opt{}; }
 eit mk_eit(bool succ) { return succ ? eit{T(next_tok())} : eit{F(next_tok())}; }
 
+#ifdef C05_UNIT_OPTIONALS
 void optionals()
 {
   for (bool some : {false, true})
@@ -184,6 +198,24 @@ void optionals()
           return target;
         });
       }
+      run1<C>("optional::maybe_void", true, sh, mk, [](auto &&a)
+      {
+        vec r;
+        r.reserve(1U);
+        fcppt::optional::maybe_void(C05_FWD(a), [&r](auto &&x)
+        {
+          cb_scope const g{C05_RECV(x)};
+          r.emplace_back(C05_FWD(x));
+        });
+        return r;
+      });
+      if constexpr (C != 'l') // assignment to an optional that already holds a value
+        run1<C>("optional::operator=", true, sh + "->engaged", mk, [](auto &&a)
+        {
+          opt target{T(1000)};
+          target = C05_FWD(a);
+          return target;
+        });
       if (some)
         run1<C>("optional::to_exception", true, sh, mk, [](auto &&a)
         { return T(fcppt::optional::to_exception(C05_FWD(a), [] { return std::runtime_error{"none"}; })); });
@@ -201,6 +233,17 @@ void optionals()
       (void)r;
       return fcppt::make_cref(a);
     });
+  }
+}
+#endif
+
+#ifdef C05_UNIT_OPTIONALS_MULTI
+void optionals_multi()
+{
+  for (bool some : {false, true})
+  {
+    std::string const sh = some ? "some" : "none";
+    auto const mk = [some] { return mk_opt(some); };
     // two optionals
     for (bool some2 : {false, true})
     {
@@ -256,6 +299,14 @@ void optionals()
         {
           run3<decltype(c1)::value, decltype(c2)::value, decltype(c3)::value>("optional::apply", mid, sh3, mk, mkm, mk,
               [&](auto &&a, auto &&b, auto &&cc) { return fcppt::optional::apply(collect3, C05_FWD(a), C05_FWD(b), C05_FWD(cc)); });
+          run3<decltype(c1)::value, decltype(c2)::value, decltype(c3)::value>("optional::maybe_void_multi", mid, sh3, mk, mkm, mk,
+              [&](auto &&a, auto &&b, auto &&cc)
+              {
+                vec r;
+                fcppt::optional::maybe_void_multi([&](auto &&x, auto &&y, auto &&z) { r = collect3(C05_FWD(x), C05_FWD(y), C05_FWD(z)); },
+                                                  C05_FWD(a), C05_FWD(b), C05_FWD(cc));
+                return r;
+              });
           run3<decltype(c1)::value, decltype(c2)::value, decltype(c3)::value>("optional::maybe_multi", mid, sh3, mk, mkm, mk,
               [&](auto &&a, auto &&b, auto &&cc)
               {
@@ -302,8 +353,26 @@ void optionals()
         run1<C>("optional::sequence", all, sh, mk, [](auto &&a) { return fcppt::optional::sequence<vec>(C05_FWD(a)); });
       });
     }
+  // optional::sequence over a TUPLE of optionals (check_sequence's tuple form -> algorithm::map over a tuple):
+  // every some/none mask of three positions
+  for (int mask = 0; mask < 8; ++mask)
+  {
+    std::string sh = "tuple[";
+    for (int i = 0; i < 3; ++i) sh += ((mask >> i) & 1) ? 's' : 'n';
+    sh += "]";
+    using otup = fcppt::tuple::object<opt, opt, opt>;
+    using rtup = fcppt::tuple::object<T, T, T>;
+    for_cats<'r', 'l', 'c'>([&](auto c)
+    {
+      run1<decltype(c)::value>("optional::sequence", mask == 7, sh,
+          [mask] { return otup{mk_opt((mask & 1) != 0), mk_opt((mask & 2) != 0), mk_opt((mask & 4) != 0)}; },
+          [](auto &&a) C05_CALL(fcppt::optional::sequence<rtup>(C05_FWD(a))));
+    });
+  }
 }
+#endif
 
+#ifdef C05_UNIT_EITHERS
 void eithers()
 {
   for (bool succ : {false, true})
@@ -366,6 +435,21 @@ void eithers()
         run1<C>("either::to_exception", true, sh, mk, [](auto &&a)
         { return T(fcppt::either::to_exception(C05_FWD(a), [](auto &&) { return std::runtime_error{"failure"}; })); });
       if constexpr (C != 'l')
+      {
+      run1<C>("either::operator=", true, sh + "->success", mk, [](auto &&a)
+      {
+        eit target{T(1000)};
+        if constexpr (C == 'r') target = std::move(a); else target = std::as_const(a);
+        return target;
+      });
+      run1<C>("either::operator=", true, sh + "->failure", mk, [](auto &&a)
+      {
+        eit target{F(1000)};
+        if constexpr (C == 'r') target = std::move(a); else target = std::as_const(a);
+        return target;
+      });
+      }
+      if constexpr (C != 'l')
         run1<C>("either::object(either)", true, sh, mk, [](auto &&a) { return eit(C05_FWD(a)); });
     });
     for_cats<'r', 'c'>([&](auto c)
@@ -385,6 +469,31 @@ void eithers()
             [](auto &&a) { return fcppt::either::join(C05_FWD(a)); });
       });
     }
+  }
+  // make_success / make_failure: the element is forwarded into the either
+  for_cats<'r', 'c'>([&](auto c)
+  {
+    constexpr char C = decltype(c)::value;
+    run1<C>("either::make_success", true, "element", [] { return T(next_tok()); }, [](auto &&a) C05_CALL(fcppt::either::make_success<F>(C05_FWD(a))));
+    run1<C>("either::make_failure", true, "element", [] { return F(next_tok()); }, [](auto &&a) C05_CALL(fcppt::either::make_failure<T>(C05_FWD(a))));
+  });
+  // error_from_optional: the value of the optional becomes the failure
+  for (bool some : {false, true})
+    for_cats<'r', 'l', 'c'>([&](auto c)
+    {
+      run1<decltype(c)::value>("either::error_from_optional", true, some ? "some" : "none", [some] { return mk_opt(some); },
+          [](auto &&a) C05_CALL(fcppt::either::error_from_optional(C05_FWD(a))));
+    });
+}
+#endif
+
+#ifdef C05_UNIT_EITHERS_MULTI
+void eithers_multi()
+{
+  for (bool succ : {false, true})
+  {
+    std::string const sh = succ ? "success" : "failure";
+    auto const mk = [succ] { return mk_eit(succ); };
     for (bool succ2 : {false, true})
     {
       std::string const sh2 = sh + "," + (succ2 ? "success" : "failure");
@@ -410,13 +519,16 @@ void eithers()
     }
   }
   // three eithers, every combination of value categories (all success / failure in the middle)
-  for (bool mid : {false, true})
+  // shapes: which of the three positions hold a success (bit i = position i): all, each single failure, and two failures
+  for (int smask : {7, 5, 6, 3, 4, 1})
   {
-    std::string const sh3 = std::string{"success,"} + (mid ? "success" : "failure") + ",success";
+    bool const mid = smask == 7;
+    auto const sf = [smask](int i) { return ((smask >> i) & 1) != 0; };
+    std::string const sh3 = std::string{sf(0) ? "success," : "failure,"} + (sf(1) ? "success," : "failure,") + (sf(2) ? "success" : "failure");
     for_cats3([&](auto c1, auto c2, auto c3)
     {
-      run3<decltype(c1)::value, decltype(c2)::value, decltype(c3)::value>("either::apply", mid, sh3, [] { return mk_eit(true); },
-          [mid] { return mk_eit(mid); }, [] { return mk_eit(true); }, [](auto &&a, auto &&b, auto &&cc)
+      run3<decltype(c1)::value, decltype(c2)::value, decltype(c3)::value>("either::apply", mid, sh3, [sf] { return mk_eit(sf(0)); },
+          [sf] { return mk_eit(sf(1)); }, [sf] { return mk_eit(sf(2)); }, [](auto &&a, auto &&b, auto &&cc)
       {
         return fcppt::either::apply([](auto &&x, auto &&y, auto &&z)
         {
@@ -467,9 +579,9 @@ void eithers()
         [](auto &&a) C05_CALL(fcppt::either::sequence<vec>(C05_FWD(a))));
       });
       // first_success: no tracked argument; the functions produce fresh elements
-      if (wanted("either::first_success"))
+      if (wanted("either::first_success") && reset("either::first_success", sh, ""))
       {
-        reset("either::first_success", sh, "");
+        guarded([&]
         {
           using function_type = fcppt::function<eit()>;
           std::vector<function_type> fns;
@@ -485,11 +597,51 @@ void eithers()
           begin("either::first_success", false, {});
           auto const r = fcppt::either::first_success(fns);
           end(r, {});
-        }
+        });
       }
     }
+  // sequence_error: the function is called with every element until the first error; the error is the result
+  for (int n : {0, 1, 3})
+    for (int fail_at : {-1, 1})
+      for_cats<'r', 'l', 'c'>([&](auto c)
+      {
+        run1<decltype(c)::value>("either::sequence_error", false, "vector:" + std::to_string(n) + (fail_at < 0 ? "/ok" : "/error at 1"),
+            [n] { return make_seq<vec>(n); }, [fail_at](auto &&a)
+        {
+          int k = 0;
+          return fcppt::either::sequence_error(C05_FWD(a), [&k, fail_at](auto &&x)
+          {
+            cb_scope const g{C05_RECV(x)};
+            using err = fcppt::either::error<T>;
+            return k++ == fail_at ? err{T(C05_FWD(x))} : err{fcppt::either::no_error{}};
+          });
+        });
+      });
+  // loop: successes are handed to the body until the first failure, which is returned
+  if (wanted("either::loop") && reset("either::loop", "2 successes, then failure", ""))
+    guarded([]
+    {
+      begin("either::loop", false, {});
+      int k = 0;
+      vec seen;
+      seen.reserve(4U);
+      F r{fcppt::either::loop(
+          [&k]
+          {
+            cb_scope const g{""};
+            return k++ < 2 ? eit{T(100 + k)} : eit{F(100 + k)};
+          },
+          [&seen](auto &&x)
+          {
+            cb_scope const g{C05_RECV(x)};
+            seen.emplace_back(C05_FWD(x));
+          })};
+      end(std::make_pair(std::move(r), fcppt::make_cref(seen)), {});
+    });
 }
+#endif
 
+#ifdef C05_UNIT_VARIANTS
 void variants()
 {
   for (bool first : {false, true})
@@ -530,6 +682,12 @@ void variants()
         run1<C>("variant::operator=", true, sh, mk, [](auto &&a)
         {
           var target{F(1000)};
+          target = C05_FWD(a);
+          return target;
+        });
+        run1<C>("variant::operator=", true, sh + "->T", mk, [](auto &&a)
+        {
+          var target{T(1000)};
           target = C05_FWD(a);
           return target;
         });
@@ -599,14 +757,24 @@ void variants()
     });
   });
 }
+#endif
 }
 
 namespace c05
 {
-void drive_values()
-{
-  optionals();
-  eithers();
-  variants();
-}
+#ifdef C05_UNIT_OPTIONALS
+void drive_optionals() { optionals(); }
+#endif
+#ifdef C05_UNIT_OPTIONALS_MULTI
+void drive_optionals_multi() { optionals_multi(); }
+#endif
+#ifdef C05_UNIT_EITHERS
+void drive_eithers() { eithers(); }
+#endif
+#ifdef C05_UNIT_EITHERS_MULTI
+void drive_eithers_multi() { eithers_multi(); }
+#endif
+#ifdef C05_UNIT_VARIANTS
+void drive_variants() { variants(); }
+#endif
 }
